@@ -49,6 +49,13 @@ struct C05 : public Driver {
         Rng gs = root.fork("selfdoc"); const bool selfDoc = run % 8 == 3; sc.selfDoc = selfDoc;
         GenSS s = genStylesheet(g, sc, d);
         p["doc"] = d.xml; p["xsl"] = s.xsl; p["encoding"] = sc.encoding; p["dtd"] = dc.dtd;
+        // one run in eight: the same document in UTF-16 (zero bytes all over the buffer the caller hands in)
+        const bool u16 = !selfDoc && root.fork("utf16-doc").chance(1, 8);
+        if (u16) { std::string o = "\xFF\xFE"; std::string x = d.xml; { size_t q = x.find("encoding=\"UTF-8\""); if (q != std::string::npos && q < 60) x.replace(q, 16, "encoding=\"UTF-16\""); }
+            for (size_t i = 0; i < x.size(); ) { unsigned char c0 = (unsigned char)x[i]; uint32_t cp; size_t n = c0 < 0x80 ? 1 : c0 < 0xE0 ? 2 : c0 < 0xF0 ? 3 : 4; if (i + n > x.size()) break;
+                if (n == 1) cp = c0; else if (n == 2) cp = ((c0 & 0x1F) << 6) | (x[i + 1] & 0x3F); else if (n == 3) cp = ((c0 & 0x0F) << 12) | ((x[i + 1] & 0x3F) << 6) | (x[i + 2] & 0x3F); else cp = ((c0 & 0x07) << 18) | ((x[i + 1] & 0x3F) << 12) | ((x[i + 2] & 0x3F) << 6) | (x[i + 3] & 0x3F);
+                i += n; auto unit = [&](uint32_t u) { o += (char)(u & 0xFF); o += (char)(u >> 8); }; if (cp >= 0x10000) { cp -= 0x10000; unit(0xD800 + (cp >> 10)); unit(0xDC00 + (cp & 0x3FF)); } else unit(cp); }
+            p["doc"] = o; p["doc_utf16"] = true; p["doc_utf8"] = d.xml; }      /* the UTF-8 original is what the attribution experiment below edits */
         Json res = Json::object(); for (auto& kv : s.resources) res[kv.first] = kv.second; for (auto& kv : d.resources) res[kv.first] = kv.second; p["resources"] = res;
         Json feats = Json::array(); for (auto& f : s.features) feats.push(f); p["features"] = feats;
         { Json ex = Json::array(); for (auto& e : s.expect) { Json pr = Json::array(); pr.push(e.first); pr.push(e.second); ex.push(pr); } p["expect"] = ex; }
@@ -70,6 +77,7 @@ struct C05 : public Driver {
             if (selfDoc) { form(gf.pick(sfSelf), gf.pick(ssfSelf), gf.pick(tf), "cpp"); continue; }   // real files next to each other, named by plain path or by URL
             unsigned k = (unsigned)gf.below(10);
             if (k == 0) form("file", gf.chance(1, 3) ? "pi" : "file", "filename", "capi");                      // XalanTransformToFile / ToData
+            else if (k == 1 && res.size() == 0 && gf.fork("capi-stream").chance(1, 2)) form("stream", "stream", "capi-stream", "capi");      // both inputs as memory buffers (nothing to resolve relative to them)
             else if (k == 1) form("file", "file", gf.chance(1, 2) ? "capi-data" : "capi-handler", "capi");
             else if (k == 2 && run % 6 == 1) form("file", gf.chance(1, 4) ? "pi" : "file", "filename", "cli");
             else if (k < 5) form("stream", "stream", gf.pick(tf), "cpp");                                      // differs from the reference in target/perturbation only
@@ -77,7 +85,7 @@ struct C05 : public Driver {
                 form(a, b, gf.pick(tf), "cpp"); }
         }
         // fault mode: one destructive input fault applied identically to every form
-        if (!selfDoc && g.chance(1, 5)) { for (auto& ff : forms.a) if (ff.str("ss") == "pi") ff["ss"] = "file";   // a fault inside the xml-stylesheet PI legitimately matters to the PI form only
+        if (!selfDoc && g.chance(1, 5) && !u16) { for (auto& ff : forms.a) if (ff.str("ss") == "pi") ff["ss"] = "file";   // a fault inside the xml-stylesheet PI legitimately matters to the PI form only
             SrcFault f; f.kind = g.chance(1, 2) ? "truncate" : "flip"; bool onDoc = g.chance(1, 2); const std::string& b = onDoc ? d.xml : s.xsl; f.a = g.below(b.size()); f.b = g.below(8); Json j = f.toJson(); j["on"] = onDoc ? "doc" : "xsl"; p["fault"] = j; }
         // the caller overrides the output encoding on the transformer (C++ layer only: the C API and the command line have other means or none);
         // every target form must then deliver that encoding
@@ -128,7 +136,13 @@ struct C05 : public Driver {
                 XalanHandle h = CreateXalanTransformer(); XformOut ex;
                 try {
                     for (auto& pa : params) { if (pa.kind == "number") XalanSetStylesheetParamNumber(pa.name.c_str(), atof(pa.value.c_str()), h); else XalanSetStylesheetParam(pa.name.c_str(), ("'" + pa.value + "'").c_str(), h); }
-                    if (tgt == "capi-data") { char* out = nullptr; fo.status = XalanTransformToData(docPath.c_str(), pi ? nullptr : ssPath.c_str(), &out, h); if (fo.status == 0 && out) { fo.bytes = out; XalanFreeData(out); } }
+                    if (tgt == "capi-stream") { const std::string db = applySrcFault(plan.str("doc"), docF), xb = applySrcFault(plan.str("xsl"), xslF); XalanCSSHandle css = nullptr; XalanPSHandle psh = nullptr; SimSink sink;
+                        fo.status = XalanCompileStylesheetFromStream(xb.data(), (unsigned long)xb.size(), h, &css);
+                        if (fo.status == 0) fo.status = XalanParseSourceFromStream(db.data(), (unsigned long)db.size(), h, &psh);
+                        if (fo.status == 0) { fo.status = XalanTransformToHandlerPrebuilt(psh, css, h, &sink, sinkCallback, sinkFlushCallback); fo.bytes = sink.bytes; }
+                        if (fo.status != 0) { const char* e = XalanGetLastError(h); fo.err = e ? e : ""; }
+                        if (psh) XalanDestroyParsedSource(psh, h); if (css) XalanDestroyCompiledStylesheet(css, h); res.count("layer:capi-stream"); }
+                    else if (tgt == "capi-data") { char* out = nullptr; fo.status = XalanTransformToData(docPath.c_str(), pi ? nullptr : ssPath.c_str(), &out, h); if (fo.status == 0 && out) { fo.bytes = out; XalanFreeData(out); } }
                     else if (tgt == "capi-handler") { SimSink sink; fo.status = XalanTransformToHandler(docPath.c_str(), pi ? nullptr : ssPath.c_str(), h, &sink, sinkCallback, sinkFlushCallback); fo.bytes = sink.bytes; }
                     else { fo.status = XalanTransformToFile(docPath.c_str(), pi ? nullptr : ssPath.c_str(), outPath.c_str(), h); if (fo.status == 0) { try { fo.bytes = readFile(outPath); } catch (...) {} } }
                     if (fo.status != 0) { const char* e = XalanGetLastError(h); fo.err = e ? e : ""; }
@@ -221,7 +235,7 @@ struct C05 : public Driver {
                 // of forms agrees once the DOCTYPE is taken out of the document, that node is what the difference is about.
                 if (feat != "doctype-node" && feat != "ns-axis" && plan.boolean("dtd") && (f.str("src") == "parsed-xerces" || f.str("src") == "wrapper")) {
                     // (the bytes the forms actually saw: a fault on the document is applied first, then taken out of the plan, so that it does not land elsewhere)
-                    std::string doc = plan.str("doc"); const bool docFaulted = plan.has("fault") && plan.at("fault").str("on") == "doc";
+                    std::string doc = plan.has("doc_utf8") ? plan.str("doc_utf8") : plan.str("doc"); const bool docFaulted = plan.has("fault") && plan.at("fault").str("on") == "doc";
                     if (docFaulted) doc = applySrcFault(doc, SrcFault::fromJson(plan.at("fault")));
                     size_t a = doc.find("<!DOCTYPE"), b = a == std::string::npos ? a : doc.find("]>", a);
                     if (b != std::string::npos) {
